@@ -7,7 +7,7 @@ from wire import Obj
 from checks import c02
 
 PROP = "C10"
-MODULES = ["JV.Props.C10"]
+MODULES = ["JV.Props.C10", "JV.Props.C10X"]
 NOSAN = ["-std=c++17", "-O1", "-g", "-D" + vlib.GUARD, "-I" + vlib.os.path.join(vlib.REPO, "include"), "-I" + vlib.os.path.join(vlib.ROOT, "harness")]
 
 LIMITS = [0, 1, 2, 3, 17, 100]
